@@ -224,7 +224,7 @@ func runC01(args []string) int {
 	}
 	// black box on the other curves: genuine accepted, replay rejected
 	curves := []ecc.ID{ecc.BLS12_381}
-	if o.Thorough() {
+	if o.AllCurves() {
 		curves = []ecc.ID{ecc.BLS12_377, ecc.BLS12_381, ecc.BW6_761, ecc.BLS24_315, ecc.BLS24_317, ecc.BW6_633}
 	}
 	for _, id := range curves {
